@@ -274,7 +274,7 @@ SECTIONS = [gen_content_type]
 
 def generate(repo):
     out = ['(* GENERATED by harness/gen_tables.py from the working tree of /repo. Do not edit. *)',
-           'From Coq Require Import List NArith.',
+           'From Coq Require Import List NArith ZArith.',
            'Import ListNotations.',
            'Open Scope N_scope.',
            '']
@@ -382,6 +382,48 @@ def gen_server(repo, out):
 
 
 SECTIONS.append(gen_server)
+
+
+# ---------------------------------------------------------------- basic_diffs section
+def gen_basic(repo, out):
+    rel = 'web_monitoring_diff/basic_diffs.py'
+    tree = _read(repo, rel)
+    asg = _module_assigns(tree)
+    dc = _last(asg, 'diff_codes', rel)
+    if not isinstance(dc, ast.Dict):
+        raise TableError('diff_codes: expected a dict literal')
+    items = []
+    for k, v in zip(dc.keys, dc.values):
+        key = _const_str(k, 'diff_codes key')
+        if len(key) != 1:
+            raise TableError('diff_codes: keys must be single characters')
+        if isinstance(v, ast.UnaryOp) and isinstance(v.op, ast.USub) and isinstance(v.operand, ast.Constant):
+            val = -v.operand.value
+        elif isinstance(v, ast.Constant) and isinstance(v.value, int):
+            val = v.value
+        else:
+            raise TableError('diff_codes: values must be integer literals')
+        items.append((ord(key), val))
+    out.append('Definition diff_codes : list (N * Z) := [' + '; '.join('(%d, (%d)%%Z)' % kv for kv in items) + '].')
+    inv = _str_seq(_last(asg, 'INVISIBLE_TAGS', rel), 'INVISIBLE_TAGS')
+    out.append(f'Definition invisible_tags : list (list N) :=\n  {cstr_list(sorted(inv))}.')
+    pat, flags = _re_compile_args(_last(asg, 'REPEATED_BLANK_LINES', rel), 'REPEATED_BLANK_LINES')
+    out.append(f'Definition repeated_blank_lines_src : list N := {cstr(_const_str(pat, "REPEATED_BLANK_LINES"))}.')
+    if flags:
+        raise TableError('REPEATED_BLANK_LINES: unexpected flags')
+    # the wrappers must still feed _get_visible_text of each side to the differ / the side-by-side view
+    for fn in ('html_text_diff', 'side_by_side_text'):
+        f = _find_func(tree, fn, rel)
+        calls = [n for n in ast.walk(f) if isinstance(n, ast.Call) and isinstance(n.func, ast.Name) and n.func.id == '_get_visible_text']
+        args = []
+        for c in calls:
+            if len(c.args) != 1 or not isinstance(c.args[0], ast.Name):
+                raise TableError(f'{fn}: unexpected call of _get_visible_text')
+            args.append(c.args[0].id)
+        out.append(f'Definition visible_text_args_{fn} : list (list N) :=\n  {cstr_list(args)}.')
+
+
+SECTIONS.append(gen_basic)
 
 
 if __name__ == '__main__':
